@@ -324,6 +324,8 @@ func ruleC13(w *World, r *Report) {
 
 	ruleC13RemoteSEID(w, r)
 	ruleSendBufferPrivate(w, r, P, "R13.9")
+	ruleOneDDNListener(w, r, P, "R13.10")
+	ruleReportConnLookedUp(w, r, P, "R13.11")
 	ruleC13Limiter(w, r)
 	ruleC13Dispatch(w, r, h)
 	ruleC13Listeners(w, r)
